@@ -187,8 +187,13 @@ def h_pow_kinds(ctx, which, D, P):
     """powers with non-UTPM base / exponent kinds, against the C01 oracle"""
     algopy = symx.load_algopy()
     X = np.empty((D, P, 2), dtype=object)
+    # the zeroth coefficient is positive only where the power needs it (real / complex exponents); integer
+    # exponents n >= 0 take any base (zero included), negative ones any non-zero base
+    needs_pos = which in ('npfloat_exp', 'pycomplex_exp', 'npcomplex_exp')
     for idx in np.ndindex(*X.shape):
-        X[idx] = ctx.var('x%s' % list(idx), pos=(idx[0] == 0))
+        X[idx] = ctx.var('x%s' % list(idx), pos=(idx[0] == 0 and needs_pos))
+        if idx[0] == 0 and which == 'negint_exp':
+            ctx.assume(X[idx] != 0)
     x = mk_utpm(ctx, algopy, X)
     if which == 'pyfloat_base':
         z = 2.0 ** x
@@ -310,6 +315,13 @@ def units(tier, seed):
                         lshape=(2,), rshape=(2,), D=D, P=(1 if tier == 'quick' else 2), lc=lc, rc=rc)
       add = base_add
     D, P = D0, P0
+    # in-place forms whose right operand overlaps the left one (the result is that of the out-of-place operator
+    # on the old values): harness of C14
+    from . import c14
+    for opn in c14.BIN:
+        for form, shp in [('x op= x', (2,)), ('x op= x[::-1]', (3,)), ('x op= x.T', (2, 2)), ('x op= x[0]', (2, 2)), ('x op= x[0:1]', (2, 2))]:
+            out.append(Unit('C02/in-place, overlapping right operand/%s/%s/%s' % (form, opn, shp), 'symx.props.c14', 'h_alias',
+                            {'opn': opn, 'form': form, 'shape': shp, 'D': 3, 'P': 2}, {'property': PROP}))
     # operands of extreme magnitude (2**600, 2**-600): intermediate squares over/underflow in floats
     for op in ('mul', 'div'):
         for k in (600, -600):
